@@ -37,6 +37,9 @@ func c07(r *Run) {
 	for _, st := range [][2]string{{"SetDeadline", "readDeadline"}, {"SetReadDeadline", "readDeadline"}, {"SetReadTimeout", "readDeadline"}} {
 		r.setterStores("C07.R4:setter-records:"+st[0], "the deadline / timeout setters record what they are given on every path (SetReadTimeout also clears a pending deadline): a blocked read can only time out at a deadline that was stored", "(*connection)."+st[0], st[1])
 	}
+	for _, st := range [][2]string{{"SetReadTimeout", "readTimeout"}, {"SetWriteTimeout", "writeTimeout"}} {
+		setterAdmitsZero(r, "C07.R4:timeout-can-be-cleared:"+st[0], "(*connection)."+st[0], st[1])
+	}
 	r.optionPlumbed("C07.R4:read-timeout-option-applied", "the read timeout configured on the event loop (WithReadTimeout) is the value installed as the connection's read timeout", "WithReadTimeout", "(*connection).SetReadTimeout")
 	ro := r.roles()
 	px := protoEffects(w)
@@ -232,6 +235,20 @@ func c07(r *Run) {
 				}
 			}
 			r.obW("C07.R2:block-only-when-open:"+key, "the reader blocks on the trigger only after observing closing==none (a connection that is already closed will never be triggered again)", fn, rc, wit, "guarded by status(closing)==none")
+			// ... observed since the previous wake-up: the trigger has one slot, a stale nil left by an earlier delivery can
+			// occupy it when the close error is pushed (and dropped) - only a fresh look at the closing state notices the close
+			{
+				px := protoEffects(w)
+				ss := &Search{Fn: fn, Stop: func(i ssa.Instruction) bool { return px.May(i, "readClosing") }}
+				var wit2 *Witness
+				for _, prev := range recvs {
+					if wt := ss.Find([]Start{After(prev)}, isIns(rc), false); wt != nil && wit2 == nil {
+						wit2 = wt
+					}
+				}
+				r.Visited += ss.Visited
+				r.obW("C07.R2:closing-reread-before-each-wait:"+key, "between two waits on the read trigger the closing state is read again: the one-slot trigger may hold a stale nil when the close error is pushed (and then dropped), so after taking that nil the reader must look at the state, not wait for an announcement that will never come", fn, rc, wit2, "status(closing) is read on every path from one wait to the next")
+			}
 		}
 	}
 	errMappingRules(r, "C07.R2")
